@@ -57,8 +57,9 @@ def plan(tier, seed):
                              N=ncls if ncls < 6 or not quick else 5, gaps=["S"], order=0, static=True))
     # every configuration once more with long fixed workloads (state that only breaks after hundreds of packets)
     nlong = explore.add_long(cfgs, 300 if quick else 800)
+    ndebug = explore.add_debug_variants(cfgs)      # the same with every element constructed with debug=True
     return {"cfgs": cfgs, "budget": None,
-            "bound": ("%d long fixed workloads (periodic arrival patterns); " % nlong) + ("N<=%d full menu, N<=%d reduced, static backlogs N<=%d with 3 sizes; weights (1,1),(1,2),(2,1),(1,3),(2,4); "
+            "bound": ("%d long fixed workloads (periodic arrival patterns); %d configurations repeated with debug=True; " % (nlong, ndebug)) + ("N<=%d full menu, N<=%d reduced, static backlogs N<=%d with 3 sizes; weights (1,1),(1,2),(2,1),(1,3),(2,4); "
                      "vticks (1,1),(1,2),(2,1),(.5,2); equal-stamp bursts over 4-6 classes" % (n, n + 1, n + 2))}
 
 
